@@ -10,6 +10,13 @@ import (
 // checkGraph evaluates the C17 structural invariants on the graph a run has built. It returns the
 // violations (category: detail, with address-free details) and the number of facts checked per category.
 func checkGraph(g *dataflow.InterProceduralFlowGraph) ([]string, map[string]int) {
+	return checkGraphMode(g, false)
+}
+
+// checkGraphMode with partial = true evaluates only the invariants that must hold after every single summary
+// construction step (edge symmetry and the global read/write sets); linking of call sites and closures is completed
+// lazily by the traversals and is checked when the analysis returns.
+func checkGraphMode(g *dataflow.InterProceduralFlowGraph, partial bool) ([]string, map[string]int) {
 	checks := map[string]int{}
 	viol := map[string]bool{}
 	add := func(cat string, format string, args ...any) {
@@ -83,6 +90,9 @@ func checkGraph(g *dataflow.InterProceduralFlowGraph) ([]string, map[string]int)
 				accessOf[a.Global][a] = true
 			}
 		})
+		if partial {
+			continue
+		}
 		for instr, byCallee := range s.Callees {
 			for _, c := range byCallee {
 				if c.CalleeSummary == nil {
